@@ -65,7 +65,9 @@ def observe(bu, isa):
         for ii, bi in enumerate(orig):
             lead = leads[si][ii] if leads and si < len(leads) else 0
             base[id(bi)] = (si, lin - lead)
-            row.append(bytes(bi.contents))
+            # uninitialised bytes read as zeros
+            row.append(bytes(bi.contents)[:bi.size] +
+                       bytes(max(0, bi.size - len(bi.contents))))
             lin += bi.size - lead
         ob.bytes.append(row)
         ob.iv_order.append(list(orig) + extra)
